@@ -1,17 +1,27 @@
 """C11 — suspend/resume freezes and later continues a connection losslessly.  Engine `susp`.
 
-(A) gen_susp(): which `suspended` guards exist in daemon.c / connection.c, the event-loop-info
-    bits, the epoll state bits  ->  lean/Mhd/Gen/Susp.lean (the model is parameterised by the
-    guards; the theorems are proved for the values the source has *now*).
-(B) correspondence: harness/h_susp.c (real daemon, socketpairs, scripted rounds, per-descriptor
-    I/O log) vs lean/Driver/Susp.lean (executable model, same scripts): the per-connection
-    callback sequence is predicted by the model and diffed.
+(A) gen_susp(): lean/Mhd/Gen/Susp.lean — which `suspended` guards the code has (the Lean model is
+    parameterised by them and the theorems are proved for the values found *now*), the event-loop-info and
+    epoll-state bits.  The guards are determined semantically where possible: the real code is asked
+    (harness ops `probe read|write|idle <c>` call the entry points on a suspended connection directly, `wb`
+    prints the flags, scripted suspends show the retry loop / first-call exit / resume short-cut / F10
+    traversal); the source pattern is the fallback and is reported next to the probe result.  A harmless
+    rewrite of a guard line therefore does not flip a flag, removing the guard does.
+(B) correspondence: harness/h_susp.c (real daemon, socketpairs, scripted rounds, per-descriptor I/O log by
+    interposing recv/send/sendmsg/writev/sendfile, suspend points in all four callback kinds, resume from the
+    callback / before the suspend / after k rounds / from a second thread / by the script) vs
+    lean/Driver/Susp.lean (executable model, same scripts): per connection the exact sequence of callbacks
+    (phase, bytes offered, bytes taken, reader position and result, suspend effectiveness, resume, completion)
+    is predicted and diffed for the external select / epoll modes; with a racing second thread or an internal
+    polling thread only the canonical projection is compared.
 (iii) independent oracle over the harness log only (knows nothing about the model):
-    * between `suspend c … eff=1` and the matching `resume c` no handler / reader / io line for c,
-      no `frozen-violation` (white-box state snapshot changed while suspended);
-    * the canonical projection of the run on c (upload bytes delivered to the handler, reply
-      received by the client) equals the one of the same script with all suspends erased (both
-      are run) and equals what the client sent / the application supplied.
+    * between `suspend c … eff=1` and the start of the daemon round that follows the matching `resume c`: no
+      handler / reader / io / completed line for c, no `frozen-violation` (white-box snapshot of the processing
+      state taken at the end of the suspending round changed), a suspend is effective iff no resume is pending;
+    * the canonical projection of the run on c (upload bytes consumed by the handler, reply head and body
+      received by the client, completion code) equals the one of the same script with all suspends erased
+      (both are run), the upload equals what the client sent, the reply body what the application supplied,
+      reader positions are contiguous.
 """
 import itertools, json, os, re
 import vlib, extract
@@ -251,8 +261,15 @@ class Plan:
 
 
 class ConnSpec:
-    def __init__(self, shape, seg, plan, chunks=(b"abc", b"defg", b"hi")):
+    def __init__(self, shape, seg, plan, chunks=(b"abc", b"defg", b"hi"), second=None):
         self.shape, self.seg, self.plan, self.chunks = shape, seg, plan, [bytes(c) for c in chunks]
+        self.second = second      # a pipelined second request: its bytes travel with the last piece of the first
+
+    def erased(self):
+        return ConnSpec(self.shape, self.seg, self.plan.erased(), self.chunks, self.second.erased() if self.second else None)
+
+    def all_bytes(self):
+        return b"".join(self._pieces1())
 
     def body(self):
         return b"".join(self.chunks) if self.shape != "get" else b""
@@ -262,6 +279,12 @@ class ConnSpec:
 
     def pieces(self):
         """list of byte strings the client sends, one per step"""
+        p = self._pieces1()
+        if self.second:
+            p[-1] = p[-1] + self.second.all_bytes()
+        return p
+
+    def _pieces1(self):
         if self.shape == "get":
             return [self.head()]
         if self.shape == "cl":
@@ -283,8 +306,7 @@ class Case:
         self.rounds = rounds
 
     def erased(self):
-        return Case(self.name + "~base", self.mode, [ConnSpec(c.shape, c.seg, c.plan.erased(), c.chunks) for c in self.conns],
-                    self.resps, rounds=self.total_rounds())
+        return Case(self.name + "~base", self.mode, [c.erased() for c in self.conns], self.resps, rounds=self.total_rounds())
 
     def total_rounds(self):
         if self.rounds is not None:
@@ -292,8 +314,10 @@ class Case:
         n = 12
         for c in self.conns:
             n += 2 * len(c.pieces())
-            for a in c.plan.acts():
+            for a in c.plan.acts() + (c.second.plan.acts() if c.second else []):
                 n += 3 + (int(a[1:]) if a[0] == "d" else 0)
+            if c.second:
+                n += 10
         if self.extra_resume:
             n += 8 + max(r for r, _ in self.extra_resume)
         return n
@@ -306,6 +330,8 @@ class Case:
             body = {"cl": "cl:%d" % len(c.body()), "ch": "ch", "get": "none"}[c.shape]
             L.append("req %d 0 head=%d body=%s" % (i, len(c.head()), body))
             L.append("beh %d 0 %s" % (i, c.plan.beh()))
+            if c.second:
+                L.append("beh %d 1 %s" % (i, c.second.plan.beh()))
         L.append("start")      # the application's scripts are fixed before the daemon starts
         for i, c in enumerate(self.conns):
             L.append("arrive %d %d" % (i, i + 1))
@@ -388,6 +414,17 @@ def gen_cases(ctx, tier, boost=False):
                                                   chunks=(b"qrs", b"tuvw", b"xy")))
                         cases.append(Case("p%d" % k, mode, conns, RESPS))
                         k += 1
+    # a second request pipelined behind the first: its bytes sit in the read buffer while the first is suspended
+    for combo in allp:
+        for (shape, seg, takes) in (SHAPES[0], SHAPES[2], SHAPES[3]):
+            for dl in delays:
+                if len(combo) == 3 and delays[(k + len(shape)) % 3] != dl:
+                    continue
+                for mode in modes:
+                    second = ConnSpec("get", "one", Plan(rid=2)) if (k % 2) else \
+                        ConnSpec("cl", "one", plan_for(rng.choice(allp), rng.choice(delays), ("all",), rid=1), chunks=(b"QR", b"S", b"TU"))
+                    cases.append(Case("q%d" % k, mode, [ConnSpec(shape, seg, plan_for(combo, dl, takes), second=second)], RESPS))
+                    k += 1
     # race orders, explicit resume, mixed actions, take-nothing-and-suspend, reader that returns data, known-size replies
     nrand = (3000 if tier == "thorough" else 500) * (3 if boost else 1)
     acts = ["i", "d0", "d1", "d2", "d3", "p", "t"]
@@ -414,7 +451,14 @@ def gen_cases(ctx, tier, boost=False):
             if plan.us and rng.random() < 0.3 and shape != "get" and plan.us[sorted(plan.us)[0]][0] in "din":
                 # back-pressure pattern: the suspending upload call consumes nothing
                 plan.zero_at = {sorted(plan.us)[0]}
-            conns.append(ConnSpec(shape, seg, plan, chunks=[bytes([65 + 7 * i + j for j in range(n)]) for n in (3, 4, 2)]))
+            second = None
+            if rng.random() < 0.15:
+                c2 = rng.choice(allp)
+                second = ConnSpec(rng.choice(["get", "cl", "ch"]), "one", plan_for(c2, lambda p: rng.choice(acts), ("all",), rid=rng.choice([1, 2])),
+                                  chunks=(b"mn", b"opq", b"r"))
+                if second.plan.rs and second.plan.rid == 2 and not rd_known_ok:
+                    second.plan.rd = 0
+            conns.append(ConnSpec(shape, seg, plan, chunks=[bytes([65 + 7 * i + j for j in range(n)]) for n in (3, 4, 2)], second=second))
         cases.append(Case("r%d" % k, mode, conns, RESPS, extra_resume=extra))
         k += 1
     return cases
@@ -472,24 +516,85 @@ def parse_reply(w):
     return head, rest, False
 
 
+def parse_replies(w):
+    """all replies on one connection, in order: [(head, body, complete?)]"""
+    out, p = [], 0
+    while p < len(w):
+        e = w.find(b"\r\n\r\n", p)
+        if e < 0:
+            out.append((w[p:], b"", False))
+            break
+        head = w[p:e + 4]
+        low = head.lower()
+        p = e + 4
+        if b"transfer-encoding: chunked" in low:
+            body, done = b"", False
+            while True:
+                le = w.find(b"\r\n", p)
+                if le < 0:
+                    break
+                try:
+                    n = int(w[p:le], 16)
+                except ValueError:
+                    break
+                if n == 0:
+                    if w[le + 2:le + 4] == b"\r\n":
+                        done, p = True, le + 4
+                    break
+                if le + 2 + n + 2 > len(w):
+                    body += w[le + 2:le + 2 + n]
+                    p = len(w)
+                    break
+                body += w[le + 2:le + 2 + n]
+                p = le + 2 + n + 2
+            out.append((head, body, done))
+            if not done:
+                break
+        else:
+            m = re.search(rb"content-length: (\d+)", low)
+            n = int(m.group(1)) if m else 0
+            out.append((head, w[p:p + n], bool(m) and p + n <= len(w)))
+            p += n
+            if p > len(w):
+                break
+    return out
+
+
+class ReqView:
+    def __init__(self):
+        self.uploaded = b""
+        self.first = self.refirst = self.final = self.queued = 0
+        self.completed = None
+        self.readers = []
+
+
 class ConnView:
     """what the log says about one connection"""
 
     def __init__(self):
         self.events = []        # strict sequence for the model diff
-        self.uploaded = b""
-        self.first = self.final = self.queued = 0
-        self.refirst = 0
+        self.reqs = {}
         self.wire = b""
-        self.completed = None
         self.violations = []
         self.nsusp = self.ncancel = 0
-        self.readers = []
+
+    def rq(self, r):
+        return self.reqs.setdefault(r, ReqView())
 
     def canon(self):
-        head, body, done = parse_reply(self.wire)
-        return {"first": min(self.first, 1), "uploaded": self.uploaded.hex(), "final": min(self.final, 1), "queued": self.queued,
-                "reply_head": head.decode("latin1"), "reply_body": body.hex(), "reply_complete": done, "completed": self.completed}
+        reps = parse_replies(self.wire)
+        out = {"replies": len(reps), "requests": len(self.reqs)}
+        for r, q in sorted(self.reqs.items()):
+            out["first%d" % r] = min(q.first, 1)
+            out["uploaded%d" % r] = q.uploaded.hex()
+            out["final%d" % r] = min(q.final, 1)
+            out["queued%d" % r] = q.queued
+            out["completed%d" % r] = q.completed
+        for j, (head, body, done) in enumerate(reps):
+            out["reply_head%d" % j] = head.decode("latin1")
+            out["reply_body%d" % j] = body.hex()
+            out["reply_complete%d" % j] = done
+        return out
 
 
 def analyse(lines, nconn, threaded=False):
@@ -516,30 +621,31 @@ def analyse(lines, nconn, threaded=False):
                     v.violations.append("harness: " + l)
             continue
         v = views[c]
+        q = v.rq(int(d["r"])) if "r" in d and d["r"].isdigit() else None
         if w[0] in ("handler", "reader", "took", "queued", "io", "completed"):
             if state[c] == "S" or (state[c] == "R" and not threaded):
                 v.violations.append("%s while suspended: `%s`" % (w[0] if w[0] != "io" else "socket I/O", l[:100]))
         if w[0] == "handler":
             ph = d["phase"]
             if ph == "first":
-                v.first += 1
+                q.first += 1
             elif ph == "refirst":
-                v.refirst += 1
+                q.refirst += 1
             elif ph == "final":
-                v.final += 1
+                q.final += 1
             last_up[c] = unhx(d["up"]) if ph == "upload" else None
             if ph != "upload":
                 v.events.append("handler %s" % ph)
         elif w[0] == "took":
             n = int(d["n"])
-            v.uploaded += last_up[c][:n]
+            q.uploaded += last_up[c][:n]
             v.events.append("handler upload up=%s took=%d" % (hx(last_up[c]), n))
         elif w[0] == "queued":
-            v.queued += 1
+            q.queued += 1
             v.events.append("queued")
         elif w[0] == "reader":
             ret = l.split("->")[1].strip()
-            v.readers.append((int(d["pos"]), ret))
+            q.readers.append((int(d["pos"]), ret))
             v.events.append("reader j=%s pos=%s ret=%s" % (d["j"], d["pos"], ret))
         elif w[0] == "suspend":
             eff = d["eff"] == "1"
@@ -569,7 +675,8 @@ def analyse(lines, nconn, threaded=False):
         elif w[0] == "wire":
             v.wire += unhx(w[2])
         elif w[0] == "completed":
-            v.completed = int(d["code"])
+            if q is not None:
+                q.completed = int(d["code"])
             v.events.append("completed code=%s" % d["code"])
         elif w[0] == "frozen-violation":
             v.violations.append("processing state changed while suspended: " + l[:160])
@@ -591,29 +698,32 @@ def judge(case, hlines, blines):
         for e in b.violations:
             errs.append(("baseline", "conn %d (no suspends): %s" % (i, e)))
         hc, bc = v.canon(), b.canon()
-        if not bc["reply_complete"] or bc["completed"] != 0:
+        specs = [c] + ([c.second] if c.second else [])
+        if bc["replies"] != len(specs) or any(not bc.get("reply_complete%d" % r) or bc.get("completed%d" % r) != 0 for r in range(len(specs))):
             errs.append(("baseline", "conn %d: the run without suspends did not complete: %r" % (i, bc)))
             continue
         if hc != bc:
-            diff = {k: (hc[k], bc[k]) for k in hc if hc[k] != bc[k]}
+            diff = {k: (hc.get(k), bc.get(k)) for k in set(hc) | set(bc) if hc.get(k) != bc.get(k)}
             errs.append(("stutter", "conn %d: projection differs from the run without suspends: %r" % (i, diff)))
         # and against what the client sent / the application supplies
-        kind, size, cbmax = case.resps[c.plan.rid]
-        want = bytes(PAT(c.plan.rid, j) for j in range(size))
-        if hc["uploaded"] != c.body().hex():
-            errs.append(("lossless", "conn %d: handler consumed %s, client sent %s" % (i, hc["uploaded"], c.body().hex())))
-        if hc["reply_body"] != want.hex():
-            errs.append(("lossless", "conn %d: client received body %s, application supplied %s" % (i, hc["reply_body"], want.hex())))
-        if v.first != 1 or v.queued != 1:
-            errs.append(("lossless", "conn %d: %d first calls, %d replies queued" % (i, v.first, v.queued)))
-        # reader positions: contiguous, never backwards
-        pos = 0
-        for p, ret in v.readers:
-            if p != pos:
-                errs.append(("lossless", "conn %d: reader called at pos %d, expected %d" % (i, p, pos)))
-                break
-            if ret.isdigit():
-                pos += int(ret)
+        for r, cs in enumerate(specs):
+            kind, size, cbmax = case.resps[cs.plan.rid]
+            want = bytes(PAT(cs.plan.rid, j) for j in range(size))
+            q = v.rq(r)
+            if hc.get("uploaded%d" % r) != cs.body().hex():
+                errs.append(("lossless", "conn %d request %d: handler consumed %s, client sent %s" % (i, r, hc.get("uploaded%d" % r), cs.body().hex())))
+            if hc.get("reply_body%d" % r) != want.hex():
+                errs.append(("lossless", "conn %d request %d: client received body %s, application supplied %s" % (i, r, hc.get("reply_body%d" % r), want.hex())))
+            if q.first != 1 or q.queued != 1:
+                errs.append(("lossless", "conn %d request %d: %d first calls, %d replies queued" % (i, r, q.first, q.queued)))
+            # reader positions: contiguous, never backwards
+            pos = 0
+            for pp, ret in q.readers:
+                if pp != pos:
+                    errs.append(("lossless", "conn %d request %d: reader called at pos %d, expected %d" % (i, r, pp, pos)))
+                    break
+                if ret.isdigit():
+                    pos += int(ret)
     return errs, hv, bv
 
 
@@ -706,7 +816,7 @@ class Spec:
             stats["mode_" + c.mode] = stats.get("mode_" + c.mode, 0) + 1
             for cl in c.conns:
                 stats["shape_%s_%s" % (cl.shape, cl.seg)] = stats.get("shape_%s_%s" % (cl.shape, cl.seg), 0) + 1
-                for a in cl.plan.acts():
+                for a in cl.plan.acts() + (cl.second.plan.acts() if cl.second else []):
                     stats["act_" + a[0]] = stats.get("act_" + a[0], 0) + 1
             errs = [e for e in errs if e[0] != "baseline"] or errs
             if errs:
@@ -715,6 +825,9 @@ class Spec:
                                              c.lines(), "susp"))
                 stats["oracle_rejects"] += 1
                 continue
+            if any(cl.second for cl in c.conns):
+                stats["pipelined_cases"] = stats.get("pipelined_cases", 0) + 1
+                continue          # the model carries one request per connection: oracle only
             if not with_model:
                 continue
             ml = mlogs.get(c.name)
@@ -730,8 +843,8 @@ class Spec:
                     stats["model_faults"] += 1
                     break
                 hc, mc = hv[i].canon(), mv[i].canon()
-                for k in ("reply_head",):
-                    hc.pop(k), mc.pop(k)
+                for k in [k for k in list(hc) + list(mc) if k.startswith("reply_head")]:
+                    hc.pop(k, None), mc.pop(k, None)
                 if hc != mc:
                     failures.append(vlib.Failure("diff", "susp: canonical projection: model/code differ",
                                                  "conn %d: code %r model %r" % (i, hc, mc), c.lines(), "susp"))
@@ -773,6 +886,10 @@ class Spec:
                 break
         ctx.note("%d cases, %d failures" % (stats["cases"], len(failures)))
         maxn = 3 if ctx.tier == "thorough" else 2
+        maxn = 3 if ctx.tier == "thorough" else 2
+        stats["rd_cases"] = sum(1 for c in cases for cl in c.conns if cl.plan.rd)
+        stats["two_or_more_connections"] = sum(1 for c in cases if len(c.conns) > 1)
+        stats["placements"] = len(placements(maxn))
         cov = {"evaluations": stats["cases"], "distinct_nontrivial": len({json.dumps(c.lines()[1:]) for c in cases if any(cl.plan.nsusp() for cl in c.conns)}),
                "rule": "a case = one scripted daemon run (1..3 connections) judged against the same script with all suspends erased; "
                        "distinct = different scripts with at least one suspend point",
@@ -782,6 +899,10 @@ class Spec:
                "random": "mixed actions per point (incl. resume-before-suspend `p`, second-thread resume `t`, explicit resume), 1..3 connections"
                          + (", internal-thread modes" if ctx.tier == "thorough" else ""),
                "exhaustive": False, "corpus": ncorp, "outcomes": stats,
+               "guards": {k: v for k, v in effective_guards()[0].items()},
+               "strength": {"callback order per connection (select/epoll external)": "bounded-exhaustive over placements + random; exact diff",
+                            "canonical projection (all modes)": "every case, against the run without suspends and against the model",
+                            "guard table": "behavioural probes + source pattern, every run"},
                "samples": [cases[len(cases) // 3].lines()[:14], cases[-1].lines()[:14]] if cases else []}
         return failures, cov
 
